@@ -1,5 +1,6 @@
 import TextxVerif.Wire
 import TextxVerif.Mult
+import TextxVerif.MultRef
 /-! Driver for the multiplicity / assignment-store model (C02).
 
 Body   B ::= {"k":"leaf"} | {"k":"asgn","a":n,"op":"="|"?="|"*="|"+="} | {"k":"seq","xs":[B]}
@@ -25,6 +26,10 @@ ops:
       params = the rule carries rule modifiers; body = the body as the body visitors return it; the model
       works on the root expression `visit_textx_rule` makes of the two (`Mult.Rule.root`) and also returns
       it: "wrapped":bool
+      an object may carry "refs":[{"n":n,"refs":[{"d":n,"p":n,"v":json}…]}…] — per reference list of the object the
+      references in the order process_node recorded them (d = resolution steps answered Postponed first,
+      p = text position, v = value; n = the largest d); O then has "reflists":[[json…]…] = the list after
+      the resolution (`Mult.Ref.resolveAll (scheduleOf n refs)`)
 -/
 open Lean Wire Mult
 
@@ -116,11 +121,24 @@ def wrapped (root : Body) : Bool :=
   | .seq [_] => true
   | _ => false
 
+def parseRef (j : Json) : Option (Nat × Nat × Json) := do
+  pure (← getNat? j "d", ← getNat? j "p", ← getObj? j "v")
+
+def parseRefList (j : Json) : Option Json := do
+  let n ← getNat? j "n"
+  let refs ← (← getArr? j "refs").toList.mapM parseRef
+  if refs.any (fun r => r.1 > n) then none
+  else pure (toJson (Mult.Ref.resolveAll (Mult.Ref.scheduleOf n refs)).vals)
+
 def parseObj (rules : Array (Body × List Nat)) (j : Json) : Option Json := do
   let r ← getNat? j "rule"
   let (b, attrs) ← rules[r]?
   let t ← (← getArr? j "trace").toList.mapM parseEv
-  pure (objOut b attrs t)
+  match getObj? j "refs" with
+  | none => pure (objOut b attrs t)
+  | some _ =>
+    let rl ← (← getArr? j "refs").toList.mapM parseRefList
+    pure ((objOut b attrs t).setObjVal! "reflists" (toJson rl))
 
 def handle (j : Json) : Json :=
   match getStr? j "op" with
